@@ -336,8 +336,6 @@ theorem table_spec_up_any (g : Globals) (hg : g.dialect = .mysql) (hio : g.ignor
     (d : Migration) (hd : loadAndDiff g old new = .ok d)
     (t : String) (tbO tbN : TableSpec) (hfo : dbO.find t = some tbO) (hfn : dbN.find t = some tbN)
     (hc : Abs.OrderCompatible tbN.colNames tbO.colNames) (hne : ∀ n ∈ tbN.colNames ++ tbO.colNames, n ≠ "")
-    (hncO : ∀ c ∈ tbO.cols, ∀ k ∈ c.opts, k.noComment = true)
-    (hncN : ∀ c ∈ tbN.cols, ∀ k ∈ c.opts, k.noComment = true)
     (hpk : tbO.pk = tbN.pk)
     (hredef : ∀ dc : List String, (∀ c ∈ dc, c ∉ tbN.colNames) →
       ∀ s ∈ tbN.idxs, ∀ o ∈ tbO.idxs, o.name = s.name → o ≠ s → ∃ c ∈ o.cols, c ∉ dc) :
@@ -358,7 +356,7 @@ theorem table_spec_up_any (g : Globals) (hg : g.dialect = .mysql) (hio : g.ignor
     List.all_eq_true.mpr (fun s hs => ReaderMysql.tablePk_of_plainOpts s (List.all_eq_true.mp hpn s hs))
   -- the column part
   obtain ⟨td, htd, hname, hact, hup, cols', hex, heq, hss, hnd⟩ := columns_spec_up_pre g hg hio rc old new dbO dbN ho hn hpo hpn
-    heo hen d hd t tbO tbN hfo hfn hc hne hncO hncN
+    heo hen d hd t tbO tbN hfo hfn hc hne
   -- uniqueness of the diffed record
   have hdInv : d.Inv := by
     have hd' := hd
@@ -456,8 +454,6 @@ theorem table_spec_up (g : Globals) (hg : g.dialect = .mysql) (hio : g.ignoreOrd
     (d : Migration) (hd : loadAndDiff g old new = .ok d)
     (t : String) (tbO tbN : TableSpec) (hfo : dbO.find t = some tbO) (hfn : dbN.find t = some tbN)
     (hc : Abs.OrderCompatible tbN.colNames tbO.colNames) (hne : ∀ n ∈ tbN.colNames ++ tbO.colNames, n ≠ "")
-    (hncO : ∀ c ∈ tbO.cols, ∀ k ∈ c.opts, k.noComment = true)
-    (hncN : ∀ c ∈ tbN.cols, ∀ k ∈ c.opts, k.noComment = true)
     (hpk : tbO.pk = tbN.pk)
     (hredef : ∀ dc : List String, (∀ c ∈ dc, c ∉ tbN.colNames) →
       ∀ s ∈ tbN.idxs, ∀ o ∈ tbO.idxs, o.name = s.name → o ≠ s → ∃ c ∈ o.cols, c ∉ dc) :
@@ -471,7 +467,7 @@ theorem table_spec_up (g : Globals) (hg : g.dialect = .mysql) (hio : g.ignoreOrd
     List.all_eq_true.mpr (fun s hs => Stmt.colSafe_of_elemSafe s (List.all_eq_true.mp ho s hs))
   obtain ⟨mo, _, hro⟩ := ReaderMysql.run_rel rc old {} [] dbO Rel.empty hoc heo
   obtain ⟨td, h1, h2, cs, dc, is, h3, h4, h5⟩ := table_spec_up_any g hg hio rc old new dbO dbN ho hn hpo hpn heo hen d hd
-    t tbO tbN hfo hfn hc hne hncO hncN hpk hredef
+    t tbO tbN hfo hfn hc hne hpk hredef
   obtain ⟨db', tb', e1, e2, e3, e4, e5, _, _, e6, e7⟩ := h5 dbO hro.nodup hfo
   exact ⟨td, h1, h2, cs, dc, is, h3, h4, db', tb', e1, e2, e3, e4, e5, e6, e7⟩
 
